@@ -1,19 +1,189 @@
 (* C01 on the second-generation Session model.  Operation-by-operation preservation for the two-mode operations is in
-   LC01.v; lifted here to the model's runs for histories without hard write failures (Calm.v). *)
+   LC01.v; here the operations on a dead socket (Fail.v) are added and the relation is lifted over every conforming
+   history, hard write failures included (Full.v).  The theorem for histories without hard failures is kept as a
+   corollary. *)
 From PahoV Require Import Base.Prelude Codec.Mid Codec.MidProofs Session2.Model Session2.Check Session2.Statements
-  Session2.Bridge Session2.Calm Session2.LLemmas Session2.LInv Session2.LC12 Session2.LC01.
+  Session2.Bridge Session2.Fail Session2.LLemmas Session2.LInv Session2.Inv Session2.Full Session2.LC12 Session2.LC01.
 From PahoV Require Session2.Legacy.
 
 Lemma R_init c : LC01.R (init c) k01_init.
 Proof. unfold LC01.R. constructor; cbn; try reflexivity; try discriminate; try (intros; contradiction). intros t []. Qed.
 
-Theorem c01_calm_proved : C01_calm_stmt.
+Section Owned3.
+Variable c : cfg.
+Hypothesis Hcfg : cfg_ok c = true.
+Notation opf := (k01_op (c_max c)).
+
+(* from the per-event relation and (ok1) to the checker's per-operation state *)
+Lemma good_R s' k evs : Inv c s' -> Good s' k evs -> LC01.R s' (opf k evs).
 Proof.
-  intros c ops Hcfg Hc Hn. unfold c01_ok, optrace.
-  destruct (lift_calm c (LInv.Inv c) (LInv.inv_step c Hcfg) k01 (k01_op (c_max c)) LC01.R
-              (fun s o k Hi Hcf HR => LC01.R_step c s o k Hcfg Hi Hcf HR) ops (init c) k01_init (LInv.inv_init c) eq_refl Hn Hc (R_init c))
+  intros I' [HR' Hok1]. pose proof (R_ok2 c _ _ I' HR') as Hok2.
+  rewrite k01_op_eq. cbv zeta. rewrite Hok1, Hok2, !andb_true_r.
+  destruct HR' as [Rok Rl Rd Rq0 Rq0q Re Rb Rc Rw]. unfold LC01.R. constructor; cbn; assumption.
+Qed.
+
+(* the loss of the connection at the end of an operation, judged as an operation of its own *)
+Lemma completed_app a b : completed_tags (a ++ b) = completed_tags a ++ completed_tags b.
+Proof. unfold completed_tags. apply flat_map_app. Qed.
+
+Lemma forallb_eq {A} (f g : A -> bool) l : (forall x, f x = g x) -> forallb f l = forallb g l.
+Proof. intros H. induction l as [|x l IH]; [reflexivity|]. cbn [forallb]. rewrite H, IH. reflexivity. Qed.
+
+Lemma split01 s1 k ev1 : LC01.R s1 (opf k ev1) -> opf k (ev1 ++ [SockLost]) = opf (opf k ev1) [SockLost].
+Proof.
+  intros HR. pose proof (x_ok _ _ _ _ HR) as Hok. rewrite k01_op_eq in Hok. cbv zeta in Hok. cbn [k1_ok] in Hok.
+  apply andb_true_iff in Hok as [Hok H3]. apply andb_true_iff in Hok as [H1 H2].
+  assert (E1 : ok1_of k (ev1 ++ [SockLost]) = ok1_of k ev1).
+  { unfold ok1_of. rewrite completed_app. cbn [completed_tags flat_map]. rewrite app_nil_r, fold_left_app.
+    cbn [fold_left k01_ev k1_q0]. apply forallb_eq. intros t. f_equal.
+    induction (k1_live k) as [|m l IH]; [reflexivity|]. cbn [existsb]. rewrite IH, existsb_app. cbn [existsb final_ack_of].
+    rewrite orb_false_r. reflexivity. }
+  rewrite (k01_op_eq _ k (ev1 ++ [SockLost])), (k01_op_eq _ (opf k ev1) [SockLost]). cbv zeta.
+  rewrite fold_left_app, E1, H2. rewrite (k01_op_eq _ k ev1). cbv zeta.
+  cbn [fold_left k01_ev k1_live k1_q0 k1_done k1_onconn k1_wr k1_est k1_blk k1_ok].
+  rewrite H1, H2, H3. cbn [andb].
+  unfold ok1_of, ok2_of. cbn [completed_tags flat_map forallb k1_est negb orb andb]. reflexivity.
+Qed.
+
+(* a relation established for a state without a socket only constrains the checker's message sets *)
+Lemma R_closed01 s0 k0 s' k' : LC01.R s0 k0 -> sock s' = false -> cack s' = false ->
+  k1_ok k' = k1_ok k0 -> k1_live k' = k1_live k0 -> k1_done k' = k1_done k0 -> k1_q0 k' = k1_q0 k0 -> k1_est k' = false ->
+  map lof (out s') = map lof (out s0) -> ntag s' = ntag s0 ->
+  (forall t, In t (q0tags (outq s')) -> In t (q0tags (outq s0))) -> LC01.R s' k'.
+Proof.
+  intros [Xok Xl Xd Xq0 Xq0q Xe Xb Xc Xw] Hs Hck E1 E2 E3 E4 E5 Eo En Eq.
+  assert (Et : tags (out s') = tags (out s0)) by (rewrite !tags_lof, Eo; reflexivity).
+  unfold LC01.R. constructor.
+  - rewrite E1. exact Xok.
+  - rewrite E2, Xl, Eo. reflexivity.
+  - intros t Ht. rewrite E3 in Ht. rewrite En, Et. exact (Xd t Ht).
+  - intros t Ht. rewrite E4 in Ht. rewrite En, Et. exact (Xq0 t Ht).
+  - intros t Ht. rewrite E4. apply Xq0q. apply Eq. exact Ht.
+  - rewrite E5. discriminate.
+  - rewrite Hs. discriminate.
+  - rewrite Hs. discriminate.
+  - rewrite Hs. discriminate.
+Qed.
+
+Lemma R01_sf s b k : LC01.R s k -> LC01.R (set_failing s b) k.
+Proof. intros H. unfold LC01.R in *. apply (Rx_ext [] (out s) s); try reflexivity. exact H. Qed.
+
+Lemma lof_cl1 m : lof (cl1 m) = lof m.
+Proof. unfold lof. rewrite cl1_tag, cl1_mid. unfold cl1. destruct (o_st m); try reflexivity. destruct (o_qos m =? 2); reflexivity. Qed.
+
+(* publish(qos=0) on a dead socket: the two-mode operation (the packet is queued), then the loss; only the result
+   code differs, and the checker does not look at the result code of a QoS 0 publish *)
+Lemma o1_pub0 s k : Inv c s -> dead s -> LC01.R s k ->
+  LC01.R (fst (do_publish c s 0)) (opf k (snd (do_publish c s 0))).
+Proof.
+  intros I Hd HR. pose proof Hd as (Hs & _ & _).
+  pose proof (LC01.R_step c s (Legacy.OPublish 0) k Hcfg I eq_refl HR) as HL. cbn [Legacy.step] in HL.
+  pose proof (LInv.inv_step c Hcfg s (Legacy.OPublish 0) I eq_refl) as IL. cbn [Legacy.step] in IL.
+  assert (E : snd (Legacy.do_publish c s 0) =
+              [Handed (conn s) (PPublish (mid_next (last_mid s)) 0 false (ntag s)); Ret (ntag s) (mid_next (last_mid s)) 0 0]).
+  { unfold Legacy.do_publish. cbv zeta. cbn [Z.eqb]. rewrite Hs.
+    set (s1 := mkS _ _ _ _ _ _ _ _ _ _ _ _).
+    assert (Hc1 : Legacy.can_write s1 = false) by (destruct Hd as (_ & _ & Hb); unfold Legacy.can_write; cbn; rewrite Hb; reflexivity).
+    rewrite (legacy_send_blocked s1 _ Hc1). reflexivity. }
+  rewrite E in HL.
+  assert (Hsb : sock (fst (Legacy.do_publish c s 0)) = true) by (rewrite legacy_publish_sock; exact Hs).
+  pose proof (LC01.R_step c _ Legacy.OConnLost _ Hcfg IL eq_refl HL) as HL2. cbn [Legacy.step] in HL2. rewrite Hsb in HL2.
+  cbn [fst snd] in HL2. rewrite <- (split01 _ _ _ HL) in HL2.
+  rewrite (publish0_dead c s Hd). cbn [fst snd].
+  assert (Ek : opf k [Handed (conn s) (PPublish (mid_next (last_mid s)) 0 false (ntag s)); SockLost;
+                      Ret (ntag s) (mid_next (last_mid s)) 0 7] =
+               opf k ([Handed (conn s) (PPublish (mid_next (last_mid s)) 0 false (ntag s)); Ret (ntag s) (mid_next (last_mid s)) 0 0] ++ [SockLost]))
+    by reflexivity.
+  rewrite Ek. exact HL2.
+Qed.
+
+(* publish(qos>0) on a dead socket: the PUBLISH is handed over, the write fails, the message leaves the window
+   again.  For the checker: the loss, then a publish() without a socket; the hand-over only adds the tag to the
+   set of messages handed to the connection that has just ended. *)
+Lemma o1_pubw s q k : Inv c s -> dead s -> pub_wrote c s q = true -> conf_op c s (OPublish q) = true -> LC01.R s k ->
+  LC01.R (fst (do_publish c s q)) (opf k (snd (do_publish c s q))).
+Proof.
+  intros I Hd Hw Hconf HR. pose proof Hd as (Hs & _ & _).
+  assert (Hq0 : (q =? 0) = false) by (unfold pub_wrote in Hw; destruct (q =? 0); [discriminate|reflexivity]).
+  assert (Hqpos : (q >? 0) = true) by (cbn [conf_op] in Hconf; lia).
+  (* the loss *)
+  pose proof (LC01.R_step c s Legacy.OConnLost k Hcfg I eq_refl HR) as H1. cbn [Legacy.step] in H1. rewrite Hs in H1. cbn [fst snd] in H1.
+  (* publish() without a socket *)
+  pose proof (LC01.R_step c (lost s) (Legacy.OPublish q) _ Hcfg (inv_lost c s I) Hconf H1) as H2. cbn [Legacy.step] in H2.
+  destruct (legacy_publish_offline_wrote c (lost s) q eq_refl Hw) as (so & Eo & Eout & En & Eq & Hso). rewrite Eo in H2. cbn [fst snd] in H2.
+  rewrite (publish_dead_wrote c s q Hd Hw), Eo. cbn [fst snd].
+  pose proof (LInv.inv_step c Hcfg (lost s) (Legacy.OPublish q) (inv_lost c s I) Hconf) as Io. cbn [Legacy.step] in Io. rewrite Eo in Io. cbn [fst] in Io.
+  assert (Hcko : cack so = false).
+  { destruct (cack so) eqn:E; [|reflexivity]. pose proof (inv_cack _ _ Io E). congruence. }
+  assert (Hk : forall f : k01 -> bool, True) by (intros; exact Logic.I).
+  eapply (R_closed01 so _ _ _ H2); try assumption.
+  all: try (rewrite !k01_op_eq; cbv zeta; cbn [lost with_sock ntag last_mid fold_left k01_ev]; rewrite ?Hq0, ?Hqpos;
+            cbn; rewrite ?andb_true_r; reflexivity).
+  - cbn [out with_q]. reflexivity.
+  - cbn [ntag with_q]. reflexivity.
+  - intros t Ht. cbn [outq with_q] in Ht. rewrite Eq. cbn [outq lost with_sock].
+    rewrite q0tags_app in Ht. apply in_app_or in Ht as [Ht|Ht]; [exact Ht|]. exfalso. cbn in Ht. rewrite Hq0 in Ht. exact Ht.
+Qed.
+
+Lemma o1_connack s r k : Inv c s -> dead s -> cack s = false -> LC01.R s k ->
+  LC01.R (fst (do_rx c s (IConnack 0) r)) (opf k (snd (do_rx c s (IConnack 0) r))).
+Proof.
+  intros I Hd Hck HR. pose proof Hd as (Hs & _ & _).
+  assert (Hconf : Legacy.conf_op c s (Legacy.ORx (IConnack 0) r) = true) by (cbn [Legacy.conf_op]; rewrite Hs, Hck; reflexivity).
+  pose proof (LC01.R_step c s (Legacy.ORx (IConnack 0) r) k Hcfg I Hconf HR) as HL. cbn [Legacy.step] in HL.
+  destruct (connack_dead_cases c s r Hd) as [E|[(sd & E & Hsd & Eo & Eq & En & _)|(sd & l1 & m & l2 & x & rest & E & Hsd & So & Eo & Eq & En & Ex & _)]].
+  - rewrite E. exact HL.
+  - rewrite E. cbn [fst snd].
+    assert (Hckd : cack sd = false).
+    { revert E. unfold do_rx. rewrite Hs. cbn [negb Z.eqb].
+      destruct (connack_loop (conn s) (tm s) (outq s) (out s)) as [[[o q'] ev] a]. destruct a; cbn [settle]; intros E; inversion E; subst; [discriminate|reflexivity]. }
+    eapply (R_closed01 s k _ _ HR); try reflexivity; try assumption.
+    + rewrite k01_op_eq. cbv zeta. cbn [fold_left k01_ev k1_ok k1_est]. unfold ok1_of. cbn [completed_tags flat_map forallb]. unfold ok2_of. cbn [k1_est negb orb]. rewrite !andb_true_r. reflexivity.
+    + rewrite Eo. reflexivity.
+    + intros t Ht. rewrite Eq in Ht. exact Ht.
+  - rewrite E. cbn [fst snd].
+    assert (Hckd : cack sd = false).
+    { revert E. unfold do_rx. rewrite Hs. cbn [negb Z.eqb].
+      destruct (connack_loop (conn s) (tm s) (outq s) (out s)) as [[[o q'] ev] a]. destruct a; cbn [settle]; intros E; inversion E; subst; [discriminate|reflexivity]. }
+    assert (Hm : In m (out s)) by (rewrite So; apply in_or_app; right; left; reflexivity).
+    pose proof (proj1 (Forall_forall _ _) (inv_qos _ _ I) m Hm) as Hqo.
+    pose proof (noq0_cl_pk m Hqo) as Hn. rewrite Ex in Hn. apply Forall_inv in Hn.
+    assert (Hfields : forall P : k01 -> Prop,
+              P (let k' := fold_left k01_ev [Inp (IConnack 0); Handed (conn s) (q_pkt x); SockLost] k in k') ->
+              P (fold_left k01_ev [Inp (IConnack 0); Handed (conn s) (q_pkt x); SockLost] k)) by (intros P H; exact H).
+    (* the hand-over of a QoS>0 PUBLISH / PUBREL only touches the set of tags handed to this connection *)
+    assert (Hh : forall k0, k1_ok (k01_ev k0 (Handed (conn s) (q_pkt x))) = k1_ok k0 /\ k1_live (k01_ev k0 (Handed (conn s) (q_pkt x))) = k1_live k0 /\
+                           k1_done (k01_ev k0 (Handed (conn s) (q_pkt x))) = k1_done k0 /\ k1_q0 (k01_ev k0 (Handed (conn s) (q_pkt x))) = k1_q0 k0 /\
+                           k1_est (k01_ev k0 (Handed (conn s) (q_pkt x))) = k1_est k0).
+    { intros k0. unfold noq0 in Hn. cbn [k01_ev]. destruct (q_pkt x) as [|mi qs d t|mi t|mi|mi|mi]; try (repeat split; reflexivity).
+      rewrite Hn. repeat split; reflexivity. }
+    eapply (R_closed01 s k _ _ HR); try assumption.
+    + rewrite k01_op_eq. cbv zeta. cbn [fold_left]. cbn [k1_ok]. unfold ok1_of. cbn [completed_tags flat_map forallb]. unfold ok2_of.
+      cbn [k01_ev k1_est negb orb k1_ok]. rewrite !andb_true_r.
+      destruct (Hh (k01_ev k (Inp (IConnack 0)))) as (A & _). exact A.
+    + rewrite k01_op_eq. cbv zeta. cbn [fold_left k1_live]. cbn [k01_ev k1_live].
+      destruct (Hh (k01_ev k (Inp (IConnack 0)))) as (_ & A & _). exact A.
+    + rewrite k01_op_eq. cbv zeta. cbn [fold_left k1_done]. cbn [k01_ev k1_done].
+      destruct (Hh (k01_ev k (Inp (IConnack 0)))) as (_ & _ & A & _). exact A.
+    + rewrite k01_op_eq. cbv zeta. cbn [fold_left k1_q0]. cbn [k01_ev k1_q0].
+      destruct (Hh (k01_ev k (Inp (IConnack 0)))) as (_ & _ & _ & A & _). exact A.
+    + rewrite k01_op_eq. cbv zeta. cbn [fold_left k1_est]. reflexivity.
+    + rewrite Eo, So, !map_app. cbn [map]. rewrite lof_cl1. reflexivity.
+    + intros t Ht. rewrite Eq, q0tags_app in Ht. apply in_app_or in Ht as [Ht|Ht]; [exact Ht|]. exfalso.
+      cbn [q0tags flat_map] in Ht. rewrite (noq0_q0tag x Hn) in Ht. exact Ht.
+Qed.
+
+End Owned3.
+
+(* EVERY conforming history, hard write failures included *)
+Theorem c01_proved : C01_stmt.
+Proof.
+  intros c ops Hcfg Hc. unfold c01_ok, optrace.
+  destruct (lift_full c Hcfg k01 (k01_op (c_max c)) LC01.R (split01 c)
+              (fun s o k Hi Hcf HR => LC01.R_step c s o k Hcfg Hi Hcf HR) R01_sf
+              (o1_pub0 c Hcfg) (o1_pubw c Hcfg) (o1_connack c Hcfg) ops (init c) k01_init (inv3_init c) Hc (R_init c))
     as (s' & H).
   exact (x_ok _ _ _ _ H).
 Qed.
 
-Print Assumptions c01_calm_proved.
+Print Assumptions c01_proved.
